@@ -2,6 +2,8 @@
 use vl_model::ctx::parse_args;
 
 mod c01;
+mod c02;
+mod c04;
 
 fn main() {
     let args = parse_args();
@@ -9,6 +11,8 @@ fn main() {
     std::panic::set_hook(Box::new(|_| {}));
     match args.id.as_str() {
         "C01" => c01::run(&args),
+        "C02" => c02::run(&args),
+        "C04" => c04::run(&args),
         other => {
             eprintln!("vl-core: unknown property {}", other);
             std::process::exit(2)
